@@ -21,7 +21,7 @@
     "all centre hydrogens explicit" branch (default mode: _strip_explicit_h, hydrogen expansion, _explicit_h). *)
 From Coq Require Import List NArith ZArith Bool Permutation.
 From SK Require Import lib.Mono model.C06_Model lib.C06_Spec model.C11_Model.
-From SK Require Import lib.Tok lib.LGraph model.C03_Model model.C04_Model model.C04_Reactor proof.C04_Any proof.C04_Check proof.C04_Proof proof.C04_DefaultProof proof.C04_Engine proof.C04_Prune proof.C04_Examples proof.C04_Object proof.C04_Chain proof.C04_Glue proof.C04_Template proof.C04_Fold proof.C04_Default proof.C04_Explicit proof.C04_DefaultEnd proof.C04_DefaultChain proof.C04_CompBt proof.C03_Spec proof.C04_Total proof.C04_TotalDefault proof.C04_TotalEnd proof.C04_TotalAny proof.C04_MonoMatch proof.C04_DefaultChainTotal proof.C04_DefaultNonneg proof.C04_TotalExamples proof.C04_ObjectExamples.
+From SK Require Import lib.Tok lib.LGraph model.C03_Model model.C04_Model model.C04_Reactor proof.C04_Any proof.C04_Check proof.C04_Proof proof.C04_DefaultProof proof.C04_Engine proof.C04_Prune proof.C04_Examples proof.C04_Object proof.C04_Chain proof.C04_Glue proof.C04_Template proof.C04_Fold proof.C04_Default proof.C04_Explicit proof.C04_DefaultEnd proof.C04_DefaultChain proof.C04_CompBt proof.C03_Spec proof.C04_Total proof.C04_TotalDefault proof.C04_TotalEnd proof.C04_TotalAny proof.C04_MonoMatch proof.C04_DefaultChainTotal proof.C04_DefaultNonneg proof.C04_Verified proof.C04_TotalExamples proof.C04_ObjectExamples.
 Import ListNotations.
 Local Open Scope Z_scope.
 
@@ -624,3 +624,43 @@ Theorem C04_in_results_engine_default : forall (enum : list N -> list N -> list 
     In T' gs /\ regen_folded T' (if invert then H else G) (if invert then G else H) = true.
 Proof. exact default_chain_final. Qed.
 Print Assumptions C04_in_results_engine_default.
+
+(** * with C06's VERIFIED enumerator in the place of VF2 no premise about the enumeration is left
+
+    [monos_on H P] is the enumerator of lib/Mono.v that C06 proves sound, complete and duplicate-free
+    (C06_enumerator_meets_contract); the structural side conditions of that theorem follow from the well-formedness of the
+    reaction (proof/C04_Wf.v).  These are the instances the correspondence itself runs when it enumerates the raw matches (and
+    compares them, as a set, with what the implementation's VF2 returned).  Only the threshold remains as a hypothesis
+    (beyond it the engine returns nothing, by design). *)
+Theorem C04_in_results_verified_implicit : forall (rematch : nat -> hostg -> molg -> list C03_Model.mapping)
+    (ser : nat -> its -> option bytes * option bytes) (core invert : bool) (G H : hostg) (thr : option N),
+  pair_wfb G H = true -> no_explicit_H G = true ->
+  (core = true -> centre_carries (its_construct G H) = true) ->
+  let tpl := template core invert G H in
+  let l := dec_side iG C03_Model.eG tpl in
+  let host := substrate invert G H in
+  let enum := monos_on (tr_host host) (tr_pat (pattern_of l)) in
+  forallb (fun p : N * mnode => 0 <=? m_hc (snd p)) (gnodes (pattern_of l)) = true ->
+  (lenN (enum (node_ids (tr_host host)) (node_ids (tr_pat (pattern_of l)))) <= dflt DEFAULT_THRESHOLD thr)%N ->
+  exists (gs : list its) (T : its),
+    fst (read_its (api_engine enum) rematch (own_opts invert false (SMember 0%N) thr false) host
+                  (tpl, l, dec_side iH C03_Model.eH tpl) fresh) = Some gs /\
+    In T gs /\ regen_exact T (if invert then H else G) (if invert then G else H) = true.
+Proof. exact chain_verified_implicit. Qed.
+Print Assumptions C04_in_results_verified_implicit.
+
+Theorem C04_in_results_verified_default : forall (rematch : nat -> hostg -> molg -> list C03_Model.mapping)
+    (core invert : bool) (G H : hostg) (thr : option N),
+  pair_wfb G H = true -> mode_E G H = true ->
+  default_okb (if invert then H else G) (if invert then G else H) (template core invert G H) = true ->
+  (core = true -> centre_carries (its_construct G H) = true) ->
+  own_valence_okb core invert G H = true ->
+  forall (rc : its) (l r : molg), rule_of core invert G H = Some (rc, l, r) ->
+  let host := substrate invert G H in
+  let enum := monos_on (tr_host host) (tr_pat l) in
+  (lenN (enum (node_ids (tr_host host)) (node_ids (tr_pat l))) <= dflt DEFAULT_THRESHOLD thr)%N ->
+  exists (gs : list its) (T' : its),
+    fst (read_its (api_engine enum) rematch (own_opts invert true (SMember 0%N) thr false) host (rc, l, r) fresh) = Some gs /\
+    In T' gs /\ regen_folded T' (if invert then H else G) (if invert then G else H) = true.
+Proof. exact chain_verified_default. Qed.
+Print Assumptions C04_in_results_verified_default.
